@@ -157,3 +157,30 @@ package codegen
 //@   mode bv
 //@   tags C12
 //@   order sort.Slice#1 [by-handle] key x :: x
+
+// ---- f16 literal widening (C04, C06): exact ------------------------------------------------
+//
+//@ func halfToFloat32
+//@   mode bv
+//@   tags C04 C06
+//@   ensures [exact] !isnan(fromhalfbits(bits)) ==> same(result, halftof32(fromhalfbits(bits)))
+//@   ensures [nan] isnan(fromhalfbits(bits)) ==> isnan(result)
+//@   pure
+//@   nopanic
+//@   terminates
+//@   loop 1 invariant [frac] frac != 0 && frac < 0x800
+//@   loop 1 invariant [shift] (0 - exp) <= 10 && frac == (uint32(bits) & 0x3ff) << (0 - exp)
+//@   loop 1 decreases 0x800 - frac
+//
+// ---- signed-minimum literal of the div/mod guards (C04, C15) ---------------------------------
+//
+// naga_div / naga_mod guard `lhs == MIN && rhs == -1`; MIN must be the minimum of
+// the operand's width (written as -MAX - 1 to stay a valid literal).
+//
+//@ func sintMinLiteral
+//@   mode bv
+//@   tags C04 C15
+//@   ensures [i32] width == 4 ==> result == "(-2147483647 - 1)"
+//@   ensures [i64] width == 8 ==> result == "(-9223372036854775807L - 1L)"
+//@   pure
+//@   nopanic
